@@ -734,7 +734,43 @@ func refLong(r *rand.Rand) string {
 	}
 }
 
+// refSpaces: code points that strings.TrimSpace / unicode.IsSpace (or a hand-written trim)
+// would remove; none of them belongs to any reference.
+var refSpaces = []string{" ", "\t", "\n", "\v", "\f", "\r", "\u0085", "\u00a0", "\u2028", "\u3000", "\ufeff", "\x00", "  ", "\r\n"}
+
+// refWrapped puts such a code point before, after, around or inside a reference that is
+// valid more often than not.
+func refWrapped(r *rand.Rand) string {
+	var s string
+	if r.Intn(3) > 0 {
+		s = refOneOf(r, "reg.example", "localhost:5000", "[::1]:443", "a.b") + "/" + refComponent(r)
+		if r.Intn(2) == 0 {
+			s += ":" + refPick(r, refAlnum, 1+r.Intn(5))
+		}
+		if r.Intn(3) == 0 {
+			s += "@sha256:" + refPick(r, refHex, 64)
+		}
+	} else {
+		s = refAssemble(r)
+	}
+	w := refSpaces[r.Intn(len(refSpaces))]
+	switch r.Intn(4) {
+	case 0:
+		return w + s
+	case 1:
+		return s + w
+	case 2:
+		return w + s + refSpaces[r.Intn(len(refSpaces))]
+	default:
+		i := r.Intn(len(s) + 1)
+		return s[:i] + w + s[i:]
+	}
+}
+
 func refRandom(r *rand.Rand) string {
+	if r.Intn(25) == 0 {
+		return refWrapped(r)
+	}
 	if r.Intn(40) == 0 {
 		s := refLong(r)
 		if r.Intn(5) == 0 {
